@@ -276,6 +276,13 @@ func TestDrive_C15(t *testing.T) {
 		}
 		addExec(inst, []ReqD{rq}, "cancel-in-delay-after-timeout")
 	}
+	// Cancel() (and the other sources) while a retry policy's own failure listener runs -- also the listener of the attempt on
+	// which the policy gives up (finding F17)
+	m15 := 40
+	if thorough {
+		m15 = 1200
+	}
+	slowRetryListenerCancelled(rng, m15, addExec)
 	// 2. the future protocol under concurrent readers
 	for _, entry := range asyncEntries {
 		for _, nr := range []int{1, 2, 5, 16} {
